@@ -287,14 +287,27 @@ func mutationDiscipline(p *Prog, r *Report) {
 		}
 		r.fail("mutation", key, p.instrPos(w.in), funcName(w.fn)+": "+w.what+" — "+why)
 	}
+	// positive control: the inventory sees the fixture's three writes
+	if p.ControlSSA != nil {
+		got := map[string]bool{}
+		for _, w := range p.memWritesOf(p.ControlFuncs) {
+			if w.root != "local" && w.root != "captured" {
+				got[w.fn.Name()] = true
+			}
+		}
+		r.check(got["Overwrite"] && got["Clobber"] && got["Poke"], "positive-control", "positive-control/mutation", "", "the write inventory reports the fixture's copy into a parameter, append onto a shortened view and store through a pointer parameter",
+			fmt.Sprintf("the write inventory misses a fixture write (seen: %v): it would miss the same in module code", got))
+	}
 	if bad == 0 {
 		r.ok("mutation", "mutation/all", "", fmt.Sprintf("%d writes outside fresh locals, all among the reference tree's %d known (function, target) pairs; no unknown external is handed tracked memory", n, len(knownMemWrites)))
 	}
 }
 
-func (p *Prog) memWrites() []memWrite {
+func (p *Prog) memWrites() []memWrite { return p.memWritesOf(p.Funcs) }
+
+func (p *Prog) memWritesOf(fns []*ssa.Function) []memWrite {
 	var out []memWrite
-	for _, fn := range p.Funcs {
+	for _, fn := range fns {
 		x := p.tx(fn)
 		for _, b := range fn.Blocks {
 			for _, in := range b.Instrs {
